@@ -39,6 +39,10 @@ pub trait DynMap {
     fn iter_check(&mut self, model: &BTreeMap<Vec<u8>, Vec<u8>>) -> Option<String>;
     fn clone_box(&self) -> Box<dyn DynMap>;
     fn items(&mut self) -> Vec<(Vec<u8>, Vec<u8>)>;
+    /// every statistics call once (results ignored)
+    fn stats_all(&mut self);
+    /// the other lookups: includes_key, bulk_get, get_string, bulk_get_string
+    fn lookups_all(&mut self, keys: &[Vec<u8>]);
     fn partial_iter(&mut self, steps: usize) -> Box<dyn std::any::Any>;
 }
 
@@ -75,6 +79,25 @@ impl<T: Kt> DynMap for FileDbMap<T> {
     }
     fn bulk_put(&mut self, pairs: &[(&[u8], &[u8])]) -> io::Result<()> {
         DbXxx::bulk_put(self, pairs)
+    }
+    fn stats_all(&mut self) {
+        use abyssiniandb::filedb::CheckFileDbMap;
+        let _ = guard(|| self.count_of_free_key_piece().map(|_| ()));
+        let _ = guard(|| self.count_of_free_value_piece().map(|_| ()));
+        let _ = guard(|| self.key_piece_size_stats().map(|_| ()));
+        let _ = guard(|| self.value_piece_size_stats().map(|_| ()));
+        let _ = guard(|| self.key_length_stats().map(|_| ()));
+        let _ = guard(|| self.value_length_stats().map(|_| ()));
+        let _ = guard(|| self.htx_filling_rate_per_mill().map(|_| ()));
+    }
+    fn lookups_all(&mut self, keys: &[Vec<u8>]) {
+        let ks: Vec<&[u8]> = keys.iter().map(|k| &k[..]).collect();
+        for k in &ks {
+            let _ = guard(|| DbXxx::includes_key(self, *k));
+            let _ = guard(|| DbXxx::get_string(self, *k));
+        }
+        let _ = guard(|| DbXxx::bulk_get(self, &ks));
+        let _ = guard(|| DbXxx::bulk_get_string(self, &ks));
     }
     fn iter_check(&mut self, model: &BTreeMap<Vec<u8>, Vec<u8>>) -> Option<String> {
         for f in [0usize, 2, 3, 4, 7] {
